@@ -55,10 +55,30 @@ func (ex *Exec) funcModSet(fn *ssa.Function) *modSet {
 	ex.modCache[fn] = ms // recursion guard (fixpoint not needed: we union the partial set, then recompute callers lazily)
 	for _, b := range fn.Blocks {
 		for _, in := range b.Instrs {
+			// writes to the callee's own freshly allocated cells/objects are invisible to the caller
+			if _, ok := in.(*ssa.Alloc); ok {
+				continue
+			}
+			if st, ok := in.(*ssa.Store); ok && ownAlloc(st.Addr) {
+				continue
+			}
 			ex.scanInstr(in, ms)
 		}
 	}
 	return ms
+}
+
+// ownAlloc: the address is (a field of) an object allocated by this very function
+func ownAlloc(v ssa.Value) bool {
+	switch x := v.(type) {
+	case *ssa.Alloc:
+		return true
+	case *ssa.FieldAddr:
+		return ownAlloc(x.X)
+	case *ssa.IndexAddr:
+		return ownAlloc(x.X)
+	}
+	return false
 }
 
 func (ex *Exec) loopModSet(h *ssa.BasicBlock) *modSet {
